@@ -559,6 +559,83 @@ def periodic_forced(ctx):
     ctx.count('periodic-forced-runs')
 
 
+def wire_validity_scenario(ctx):
+    """Every message the provider really hands to the transport (real subscription objects, real soap clients of the
+    synchronous manager, a real subscribed consumer on localhost) validates against the bundled schemas — also when the
+    application commits content that is not schema-valid: the library has to refuse, not to send."""
+    import sdc11073.pysoap.soapclient as sc
+    p = lb.Provider(mdib_path=c02.MDIBS[1], start=True, role_providers=False, sync=True)
+    sent = []
+    orig = sc.SoapClient._send_soap_request  # noqa: SLF001
+
+    def spy(self, path, xml, log_msg):
+        sent.append(xml)
+        return orig(self, path, xml, log_msg)
+    sc.SoapClient._send_soap_request = spy  # noqa: SLF001
+    cons = None
+    try:
+        cons = lb.Consumer(p, init_mdib=False, subscribe_reports=True)
+        m = p.mdib
+        w = tx.World(p, ctx.subrng('wirevalid'))
+        del sent[:]
+        steps = []
+
+        def attempt(label, fn):
+            try:
+                fn()
+                steps.append((label, 'committed'))
+            except Exception as ex:  # noqa: BLE001
+                steps.append((label, type(ex).__name__))
+
+        def valid_metric():
+            with m.metric_state_transaction() as mgr:
+                st = mgr.get_state(w.states_of_kind('metric')[0])
+                w.mutate_state(st, 3)
+
+        def invalid_context():
+            with m.context_state_transaction() as mgr:
+                st = mgr.mk_context_state('PC.mds0', 'wv_patient', set_associated=True)
+                st.BindingMdibVersion = -1       # not an xsd:unsignedLong
+
+        def invalid_descriptor():
+            with m.descriptor_transaction() as mgr:
+                d = mgr.get_descriptor(w.states_of_kind('metric')[1])
+                d.DescriptorVersion = -3
+
+        def valid_context():
+            with m.context_state_transaction() as mgr:
+                mgr.mk_context_state('PC.mds0', 'wv_patient2', set_associated=False)
+        for label, fn in (('valid metric', valid_metric), ('context state with BindingMdibVersion=-1', invalid_context),
+                          ('descriptor with DescriptorVersion=-3', invalid_descriptor), ('valid context', valid_context)):
+            attempt(label, fn)
+        w.close()
+        import time as _t
+        _t.sleep(0.3)
+        reader = p.device.msg_reader
+        bad = []
+        n_reports = 0
+        for xml in sent:
+            if b'Report' not in xml and b'WaveformStream' not in xml:
+                continue
+            n_reports += 1
+            try:
+                reader.read_received_message(xml, validate=True)
+            except Exception as ex:  # noqa: BLE001
+                bad.append(f'{type(ex).__name__}: {str(ex)[:120]}')
+        case = {'wire_validity': True, 'steps': steps, 'reports_on_the_wire': n_reports}
+        if bad:
+            ctx.fail('schema-invalid-message-on-the-wire', f'{len(bad)} of {n_reports} notifications handed to the transport do not validate: {bad[0]}', case)
+        if n_reports == 0:
+            ctx.fail('wire-validity-scenario-saw-no-report', str(steps), case)
+        ctx.case(case, nontrivial=True)
+        ctx.count('wire-validity-reports', n_reports)
+    finally:
+        sc.SoapClient._send_soap_request = orig  # noqa: SLF001
+        if cons is not None:
+            cons.stop()
+        p.stop()
+
+
 def prog_to_lean(name, log):
     acts = []
     for ev, arg in log:
@@ -664,6 +741,7 @@ def run(ctx):
         for sync in (True, False):
             slow_subscriber_order(ctx, sync)
     periodic_forced(ctx)
+    wire_validity_scenario(ctx)
 
 
 def search(ctx):
@@ -677,7 +755,9 @@ def replay(ctx, obj):
     lb.quiet()
     case = obj['case']
     ctx2 = core.Ctx('C04', 'quick', 0)
-    if 'periodic_forced' in case:
+    if 'wire_validity' in case:
+        wire_validity_scenario(ctx2)
+    elif 'periodic_forced' in case:
         periodic_forced(ctx2)
     elif 'slow_subscriber' in case:
         slow_subscriber_order(ctx2, case['sync'])
